@@ -486,9 +486,12 @@ func runT(w *world, c tcase) {
 		}
 	}
 	r.Eval(1)
-	what := "raw:" + c.RawMut + ":declared=" + c.Declared
-	if c.FailAt >= 0 {
-		what += ":storage-fault"
+	what := "declared-size=" + c.Declared
+	if w.faultsFired > 0 {
+		what = "after-local-storage-failure-during-stream"
+	}
+	if c.RawMut != "" {
+		what += ":raw-mutation=" + c.RawMut
 	}
 	if checkStored(w, "slice", what, c) {
 		return
@@ -514,25 +517,38 @@ func runT(w *world, c tcase) {
 		return
 	}
 	// PUT acknowledged: pieces must reassemble to the acknowledged bytes
-	fpTail := fmt.Sprintf("%s:declared=%s:%s", split, c.Declared, fault)
+	detail := fmt.Sprintf("%s:declared=%s", split, c.Declared)
 	if k.ec {
-		fpTail = "ec:" + fpTail
+		detail = "ec:" + detail
 	}
+	// fingerprint = cause class only (shape of the object is in the message)
+	cause := "declared-size=" + c.Declared
+	if w.faultsFired > 0 {
+		cause = "after-local-storage-failure-during-stream"
+	}
+	if c.RawMut != "" {
+		cause += ":raw-mutation=" + c.RawMut
+	}
+	fpTail := detail + ":" + fault
 	if c.RawMut != "" {
 		fpTail += ":raw-mutation=" + c.RawMut
 	}
 	phys, perr := physical(w, k.ec)
 	if perr != nil {
-		viol("put-acknowledged-but-pieces-incomplete:"+fpTail, fmt.Sprintf("%+v: %v", c, perr), c)
+		viol("put-acknowledged-but-pieces-incomplete:"+cause, fmt.Sprintf("%+v (%s): %v", c, detail, perr), c)
 		return
 	}
 	got, shape, rerr := reassemble(phys, rootID)
 	if rerr != nil {
-		viol("put-acknowledged-but-pieces-do-not-reassemble:"+fpTail, fmt.Sprintf("%+v: root %s: %v (stored %d objects)", c, rootID, rerr, len(w.stored)), c)
+		viol("put-acknowledged-but-pieces-do-not-reassemble:"+cause, fmt.Sprintf("%+v (%s): root %s: %v (stored %d objects)", c, detail, rootID, rerr, len(w.stored)), c)
 		return
 	}
 	if !bytes.Equal(got, acked) {
-		viol("put-acknowledged-but-stored-payload-differs-from-streamed:"+fpTail, fmt.Sprintf("%+v: every SendChunk and Close succeeded for %d bytes %x, stored pieces reassemble to %d bytes %x", c, len(acked), acked, len(got), got), c)
+		diff := 0
+		for diff < len(got) && diff < len(acked) && got[diff] == acked[diff] {
+			diff++
+		}
+		viol("put-acknowledged-but-stored-payload-differs-from-streamed:"+cause, fmt.Sprintf("%+v (%s): every SendChunk and Close succeeded for %d bytes, stored pieces reassemble to %d bytes (first difference at offset %d)", c, detail, len(acked), len(got), diff), c)
 		return
 	}
 	class("T:stored:" + shape + ":" + fpTail)
@@ -555,7 +571,10 @@ func run(w *world, c tcase) {
 			}
 			fp := "panic:" + c.Path
 			if c.Path == "T" {
-				fp += fmt.Sprintf(":declared=%s:fault=%v", c.Declared, c.FailAt >= 0)
+				fp += ":declared-size=" + c.Declared
+				if w.faultsFired > 0 {
+					fp += ":after-local-storage-failure-during-stream"
+				}
 			}
 			viol(fp, fmt.Sprintf("%+v: PUT pipeline panicked: %v at %s", c, p, where), c)
 		}
@@ -651,35 +670,63 @@ func main() {
 	}
 	nS := len(cases) - nR
 	// T
-	n := 6
-	maxObjs := []uint64{2, 3, 4, 8}
+	type regime struct {
+		maxObj uint64
+		n      int
+		cuts   []int // candidate chunk boundaries; every subset is a chunking
+	}
+	// the link object's payload (about 40 bytes per child) must itself fit the size limit, so split regimes use a
+	// 128-byte limit and chunk boundaries taken from the positions around the child boundaries
+	regimes := []regime{
+		{8, 6, []int{1, 2, 3, 4, 5}},
+		{128, 129, []int{1, 127, 128}},
+		{128, 256, []int{1, 127, 128, 129, 255}},
+		{128, 259, []int{1, 127, 128, 129, 255, 256, 257, 258}},
+	}
 	if r.Thorough() {
-		n = 7
-		maxObjs = []uint64{1, 2, 3, 4, 5, 7, 8}
+		regimes = append(regimes,
+			regime{7, 7, []int{1, 2, 3, 4, 5, 6}},
+			regime{128, 130, []int{1, 2, 64, 127, 128, 129}},
+			regime{128, 384, []int{1, 127, 128, 129, 255, 256, 257, 383}},
+			regime{128, 385, []int{128, 256, 384}}, // 4 children: link does not fit
+			regime{4, 6, []int{1, 2, 3, 4, 5}},     // link never fits
+		)
 	}
 	for _, k := range rawKinds {
 		for _, rm := range rawMuts {
-			for _, mo := range maxObjs {
+			for _, rg := range regimes {
 				for _, decl := range []string{"unset", "n", "n-1", "n+1"} {
-					ln := n
+					ln := rg.n
+					var comps [][]int
 					if k.sys {
 						ln = 0
-						if decl != "unset" || mo != maxObjs[0] {
+						if decl != "unset" || rg.n != regimes[0].n {
 							continue
 						}
+						comps = [][]int{{}}
+					} else {
+						enumx.Subsets(len(rg.cuts), func(mask uint64) bool {
+							var ch []int
+							prev := 0
+							for _, i := range enumx.Bits(mask) {
+								ch = append(ch, rg.cuts[i]-prev)
+								prev = rg.cuts[i]
+							}
+							comps = append(comps, append(ch, ln-prev))
+							return true
+						})
 					}
-					comps := compositionsOf(ln)
 					if rm.name != "" {
 						comps = comps[:1] // refused at Init; one chunking is enough when it is
 					}
 					for _, ch := range comps {
-						cases = append(cases, tcase{Path: "T", Raw: k.name, RawMut: rm.name, MaxObj: mo, Declared: decl, Chunks: ch, FailAt: -1, Len: ln})
+						cases = append(cases, tcase{Path: "T", Raw: k.name, RawMut: rm.name, MaxObj: rg.maxObj, Declared: decl, Chunks: ch, FailAt: -1, Len: ln})
 					}
 					if rm.name == "" && (decl == "unset" || decl == "n") && !k.sys {
 						// local storage failure at every Put index, three chunkings
-						for _, ch := range [][]int{{ln}, comps[len(comps)-1], {1, ln - 1}} {
-							for f := 0; f <= ln+1; f++ {
-								cases = append(cases, tcase{Path: "T", Raw: k.name, MaxObj: mo, Declared: decl, Chunks: ch, FailAt: f, Len: ln})
+						for _, ch := range [][]int{comps[0], comps[len(comps)-1], comps[1]} {
+							for f := 0; f <= 4; f++ {
+								cases = append(cases, tcase{Path: "T", Raw: k.name, MaxObj: rg.maxObj, Declared: decl, Chunks: ch, FailAt: f, Len: ln})
 							}
 						}
 					}
@@ -723,7 +770,7 @@ func main() {
 	}
 	r.Sample(map[string]any{"bases": strings.Join(bn, ","), "example_mutations": []string{muts[0].Name, muts[len(muts)/2].Name, muts[len(muts)-1].Name}})
 	r.Rule(fmt.Sprintf("R: %d bases x every applicable mutation of a %d-entry menu (%d pairs) through ValidateAndStoreObjectLocally; S: the same pairs through Streamer Init/SendChunk/Close; when Init accepts: payload variants (exact, last byte dropped, nothing, each byte flipped, byte appended) x every composition of the streamed length (payload <= 7 bytes; 4 chunkings for the longer link payload); "+
-		"T: %d raw header kinds x %d raw mutations x max object size %v x declared size {unset,n,n-1,n+1} x every composition of n=%d bytes, plus storage failure at every Put index for 3 chunkings. one evaluation = one complete PUT/replicate call with the oracle applied to everything stored; non-trivial = mutated/invalid case with >1 chunk (or any R/T case) that left nothing stored, or valid case stored and reassembled", len(bases), len(muts), pairs, len(rawKinds), len(rawMuts)-1, maxObjs, n))
+		"T: %d raw header kinds x %d raw mutations x regimes {max object size, payload length, candidate chunk boundaries} %v x declared size {unset,n,n-1,n+1} x every subset of the candidate boundaries as a chunking, plus node-0 storage failure at Put index 0..4 for 3 chunkings. one evaluation = one complete PUT/replicate call with the oracle applied to everything stored; non-trivial = mutated/invalid case with >1 chunk (or any R/T case) that left nothing stored, or valid case stored and reassembled", len(bases), len(muts), pairs, len(rawKinds), len(rawMuts)-1, regimes))
 	r.Exhaustive(!notExhaustive.Load())
 	r.Assume("request-level checks (ACL, session/bearer token validity and lifetime, request signatures) happen before the PUT service and are other properties' subject; a session token given with a raw header is genuine",
 		"replication path = putsvc.Service.ValidateAndStoreObjectLocally (what Server.Replicate calls after authorising the request)",
